@@ -394,3 +394,20 @@ def run_solver_poly(A, fam, policy, pinp, refs, colours=True):
                 event["notes"].append(f"clade {key}: (name, colour) {info} became {names[key]}")
     event["notes"] = sorted(set(event["notes"]))[:5]
     return event
+
+
+def replay_known(ctx, fams, relevant):
+    """Witness inputs of recorded findings (known_findings.json) are replayed;
+    the violation they produce is matched by ctx.violation and printed as
+    KNOWN-FINDING; a witness that stops failing is noted."""
+    A = proj.api()
+    for finding in ctx.known:
+        w = finding.get("witness", {})
+        if w.get("family") not in fams:
+            continue
+        inp = sinput_from_json(w["input"])
+        event = run_solver(A, w["family"], w["algo"], w.get("policy", "ALL"), inp)
+        before = len(ctx.known_hits)
+        validate(ctx, [(w["family"], inp, [event])], relevant, jobs=1)
+        if len(ctx.known_hits) == before and finding["id"] not in [k["id"] for k in ctx.known_hits]:
+            print(f"NOTE: property={ctx.prop} listed witness {finding['id']} no longer fails", flush=True)
